@@ -489,7 +489,8 @@ def isFieldTy : Ty → Bool
 
 mutual
 /-- the types that can be written in Rust: tuple arity 2..12, polynomials over `BFieldElement`/`XFieldElement`,
-    at least one enum variant. The theorems do not need it (they hold for the whole universe). -/
+    at least one and fewer than `2^32` enum variants. Only `encode_canonical` needs it (for the discriminant); all
+    other theorems hold for the whole universe. -/
 def wf : Ty → Bool
   | .box t => wf t
   | .option t => wf t
@@ -498,7 +499,7 @@ def wf : Ty → Bool
   | .tuple ts => 2 ≤ ts.length && ts.length ≤ 12 && wfs ts
   | .poly t => isFieldTy t
   | .struct fs => wfs fs
-  | .enum vars => !vars.isEmpty && wfss vars
+  | .enum vars => !vars.isEmpty && vars.length < 2^32 && wfss vars
   | _ => true
 def wfs : List Ty → Bool
   | [] => true
@@ -540,6 +541,106 @@ def Ty.sizes : List Ty → Nat
 def Ty.sizess : List (List Ty) → Nat
   | [] => 0
   | fs :: rest => Ty.sizes fs + Ty.sizess rest
+end
+
+/-! ## cost semantics for the work bound (C13)
+
+`cost t s` counts what `decode t s` *does* on any outcome: one unit per call of a decoder and per loop iteration,
+following the same control flow (it consults `decode` only to know whether the loop goes on). Primitive decoders
+(at most four limbs) are one unit. `Ty.work` is the per-type constant of the bound. -/
+def costChunks (dec : List Nat → Outcome Val) (cost : List Nat → Nat) (w : Nat) : Nat → List Nat → Nat
+  | 0, _ => 0
+  | n + 1, s => 1 + cost (s.take w) + (match dec (s.take w) with
+    | .ok _ => costChunks dec cost w n (s.drop w)
+    | _ => 0)
+
+def costDyn (dec : List Nat → Outcome Val) (cost : List Nat → Nat) : Nat → Nat → List Nat → Nat
+  | 0, _, _ => 0
+  | n + 1, idx, s =>
+    match s with
+    | [] => 1
+    | len :: rest =>
+      if idx + 1 + len ≥ 2^64 then 1
+      else if rest.length < len then 1
+      else 1 + cost (rest.take len) + (match dec (rest.take len) with
+        | .ok _ => costDyn dec cost n (idx + 1 + len) (rest.drop len)
+        | _ => 0)
+
+def costList (dec : List Nat → Outcome Val) (cost : List Nat → Nat) (sl : Option Nat) (n : Nat) (s : List Nat) : Nat :=
+  match sl with
+  | some w =>
+    if n * w ≥ 2^64 then 1
+    else if s.length < n * w then 1
+    else if s.length > n * w then 1
+    else if w = 0 then 1
+    else 1 + costChunks dec cost w n s
+  | none => 1 + costDyn dec cost n 0 s
+
+def costItem (cost : List Nat → Nat) (sl : Option Nat) (s : List Nat) : Nat :=
+  match sl with
+  | some w => if s.length < w then 1 else 1 + cost (s.take w)
+  | none =>
+    match s with
+    | [] => 1
+    | len :: r => if r.length < len then 1 else 1 + cost (r.take len)
+
+mutual
+def cost : Ty → List Nat → Nat
+  | .box t, s => 1 + cost t s
+  | .option t, s => (match s with
+    | [] => 1
+    | tag :: rest => if tag = 1 then 1 + cost t rest else 1)
+  | .vec t, s => (match s with
+    | [] => 1
+    | n :: rest => 1 + costList (fun c => decode t c) (fun c => cost t c) (staticLength t) n rest)
+  | .array n t, s =>
+    if n > 0 ∧ s.isEmpty then 1
+    else 1 + costList (fun c => decode t c) (fun c => cost t c) (staticLength t) n s
+  | .tuple ts, s => 1 + costFields ts s
+  | .poly t, s => (match s with
+    | [] => 1
+    | ind :: rest =>
+      if s.length < ind + 1 then 1
+      else if s.length > ind + 1 then 1
+      else match rest with
+        | [] => 2
+        | n :: rest' => 2 + costList (fun c => decode t c) (fun c => cost t c) (staticLength t) n rest')
+  | .u32s n, s => if s.length = n then 1 + s.length else 1
+  | .struct fs, s => 1 + costFields fs s
+  | .enum vars, s => (match s with
+    | [] => 1
+    | d :: rest => 1 + costVariant vars d rest)
+  | _, _ => 1
+def costFields : List Ty → List Nat → Nat
+  | [], _ => 0
+  | t :: ts, s => costFields ts s + (match decodeFields ts s with
+    | .ok (_, s') => costItem (fun c => cost t c) (staticLength t) s'
+    | _ => 0)
+def costVariant : List (List Ty) → Nat → List Nat → Nat
+  | [], _, _ => 0
+  | fs :: rest, d, s => (match d with
+    | 0 => costFields fs s
+    | d' + 1 => costVariant rest d' s)
+end
+
+mutual
+def Ty.work : Ty → Nat
+  | .box t => 1 + t.work
+  | .option t => 1 + t.work
+  | .vec t => 3 + t.work
+  | .array _ t => 4 + t.work
+  | .tuple ts => 1 + Ty.works ts
+  | .poly t => 4 + t.work
+  | .struct fs => 1 + Ty.works fs
+  | .enum vars => 1 + Ty.workss vars
+  | .u32s _ => 2
+  | _ => 1
+def Ty.works : List Ty → Nat
+  | [] => 0
+  | t :: ts => 1 + t.work + Ty.works ts
+def Ty.workss : List (List Ty) → Nat
+  | [] => 0
+  | fs :: rest => Ty.works fs + Ty.workss rest
 end
 
 end TF.Codec
